@@ -473,7 +473,14 @@ def summaries(ck, R):
                 c = p.conds[0]
                 outer_first = c[0][0] == "call" and c[0][1].endswith("Subscribe::" + m) and c[0][2][0] == ("field", ("arg", 1), "subscriber")
                 clears = any(x[1].get("path") == SF + "FilterState::clear_enabled" for x in p.calls)
-                rows[c[1] != 0] = (outer_first, clears, show(p.ret))
+                k = c[1] != 0
+                if k in rows:
+                    # several paths behind the same verdict (e.g. the clearing made conditional): the veto clears only
+                    # if every such path does
+                    prev = rows[k]
+                    rows[k] = (prev[0] and outer_first, prev[1] and clears, prev[2] if prev[2] == show(p.ret) else prev[2] + "|" + show(p.ret))
+                else:
+                    rows[k] = (outer_first, clears, show(p.ret))
             ok = set(rows) == {True, False} and rows[True][0] and rows[False][2] == "0" and rows[True][2].startswith(m + "(arg1.inner")
             S[flag] = ok and rows[False][1]
             shape("Layered::%s asks the outer layer first; veto returns false (clears bitmap: %s)" % (m, S[flag]), ok, str(rows), b)
